@@ -3,7 +3,7 @@ import re
 
 from ..engine import CALLS, CTORS, atomic_ops, atomic_field_of, callee_fq, path, unwrap
 from ..flow import TooManyPaths
-from ..rcu import RCU, NODE, ZLN, all_paths
+from ..rcu import RCU, NODE, ZLN, all_paths, insertion_body
 from .. import common
 from . import c05
 
@@ -26,7 +26,7 @@ MUTATORS = ("push_front", "emplace_front", "push_back", "emplace_back", "erase")
 def run(ctx):
     ctx.step(wmutex, ctx)
     ctx.step(publish, ctx)
-    ctx.step(c05.unlink_first, ctx, "C12.erase-next")
+    ctx.step(c05.unlink_first, ctx, "C12.erase-next", all_or_nothing=True)
     ctx.step(iters, ctx)
     from . import c13
     ctx.step(c13.uaf, ctx, "C12.uaf", [f for f in ctx.fb.functions(rec=RCU)], floor=10)
@@ -50,12 +50,33 @@ def wmutex(ctx):
                    "" if ok else str([(e[3], e[2].mode) for e in acq]), fn=f.label, inst=f.qname)
 
 
+def _nonnull_on_path(ev, load_toks):
+    """did this path test the value loaded by one of load_toks against null - True: non-null, False: null, None: untested"""
+    for e in ev:
+        if e["k"] != "branch":
+            continue
+        for a in e["atoms"]:
+            tok = (e["toks"].get(a[1]) or "") if isinstance(a[1], str) else ""
+            if tok.split("@")[0] not in load_toks:
+                continue
+            if a[0] == "eq" and a[2] == "nullptr":
+                return a[3] is False
+            if a[0] == "truth":
+                return bool(a[3])
+    return None
+
+
 def publish(ctx, rid="C12.publish", reentrancy=True):
     ctx.rule(rid, "insertions: node constructed and its own links stored before the single publishing store; a front "
              "insertion into a non-empty list links the old head first", floor=16)
     fb = ctx.fb
     for nm in ("push_front", "emplace_front", "push_back", "emplace_back"):
-        for f in fb.functions(rec=RCU, name=nm):
+        for f0 in fb.functions(rec=RCU, name=nm):
+            ib = insertion_body(f0)
+            if ib is None:
+                ctx.unknown("%s: %s: cannot find the node %s allocates (no allocate_unique result bound to a local)" % (rid, f0.where, nm))
+                continue
+            f, NN, mk, call_pos = ib
             try:
                 ps = all_paths(f)
             except TooManyPaths:
@@ -63,9 +84,9 @@ def publish(ctx, rid="C12.publish", reentrancy=True):
             front = "front" in nm
             for pe in ps:
                 ev = pe.events
-                pubs = [e for e in ev if e["k"] in ("astore", "armw") and e.get("val") == "l:newNode" and
-                        e["fld"] in ((RCU, "m_head"), (NODE, "next")) and not (e["obj"] or "").startswith("l:newNode")]
-                own = [e for e in ev if e["k"] in ("astore", "armw") and (e["obj"] or "") == "l:newNode->next"]
+                pubs = [e for e in ev if e["k"] in ("astore", "armw") and e.get("val") == NN and
+                        e["fld"] in ((RCU, "m_head"), (NODE, "next")) and not (e["obj"] or "").startswith(NN)]
+                own = [e for e in ev if e["k"] in ("astore", "armw") and (e["obj"] or "") == NN + "->next"]
                 ok = len(pubs) == 1
                 ctx.ob(rid, ok, f.where, "%s makes the new node reachable with exactly one store on each path" % nm,
                        "" if ok else "publishing stores: %s" % [(e["obj"], e["k"]) for e in pubs], fn=f.label, inst=f.qname)
@@ -78,28 +99,33 @@ def publish(ctx, rid="C12.publish", reentrancy=True):
                        "" if ok else "newNode->next is written at %s after the node became reachable: a reader sees a "
                        "one-element list" % f.loc(late[0]["st"]), fn=f.label, inst=f.qname)
                 # allocate_unique dominates
-                mk = [st for st in f.stmts.values() if st["k"] == "CallExpr" and callee_fq(st) == "gmlc::libguarded::detail::allocate_unique"]
-                ok = len(mk) == 1 and f.dominates(f.pos_of(mk[0]), pubs[0]["pos"])
+                ok = len(mk) == 1 and f0.dominates(f0.pos_of(mk[0]), call_pos if call_pos is not None else pubs[0]["pos"])
                 ctx.ob(rid, ok, f.loc(pubs[0]["st"]), "the node is fully constructed before it is published", "", fn=f.label, inst=f.qname)
                 if mk and reentrancy:
                     # the element's constructor is user code and may re-enter the list (recursive mutexes are documented as
                     # supported): the ends of the list must be read after it ran
-                    early = [e for e in ev if e["k"] == "aload" and e["fld"] in ((RCU, "m_head"), (RCU, "m_tail")) and
-                             f.reach_avoiding(e["pos"], f.pos_of(mk[0]), [])]
+                    early = [] if call_pos is not None else \
+                        [e for e in ev if e["k"] == "aload" and e["fld"] in ((RCU, "m_head"), (RCU, "m_tail")) and
+                         f.reach_avoiding(e["pos"], f.pos_of(mk[0]), [])]
+                    if call_pos is not None:
+                        # linking code in a helper: nothing in the insertion function may read the ends before the call
+                        early = [dict(obj=op["obj"], st=op["st"]) for op in atomic_ops(f0) if op["op"] == "load" and
+                                 atomic_field_of(f0, op) in ((RCU, "m_head"), (RCU, "m_tail")) and
+                                 f0.reach_avoiding(f0.pos_of(op["st"]), f0.pos_of(mk[0]), [])]
                     ok = not early
-                    ctx.ob(rid, ok, f.loc(mk[0]), "m_head / m_tail are read only after the element was constructed (user code that "
+                    ctx.ob(rid, ok, f0.loc(mk[0]), "m_head / m_tail are read only after the element was constructed (user code that "
                            "inserts into the same list cannot be overwritten)", "" if ok else
-                           "%s is read at %s before the user constructor runs and used afterwards" % (early[0]["obj"], f.loc(early[0]["st"])),
+                           "%s is read at %s before the user constructor runs and used afterwards" % (early[0]["obj"], (f0 if call_pos is not None else f).loc(early[0]["st"])),
                            fn=f.label, inst=f.qname)
                 if front:
                     # non-empty branch: old head linked first
-                    nonempty = any(e["k"] == "branch" and any(a[0] == "eq" and a[1] == "l:oldHead" and a[2] == "nullptr" and a[3] is False
-                                                              for a in e["atoms"]) for e in ev)
+                    head_toks = {"load:" + e["st"]["id"] for e in ev if e["k"] == "aload" and e["fld"] == (RCU, "m_head")}
+                    nonempty = _nonnull_on_path(ev, head_toks) is True
                     via_head = pubs[0]["fld"] == (RCU, "m_head")
                     ok = via_head
                     ctx.ob(rid, ok, f.loc(pubs[0]["st"]), "a front insertion is published through m_head", "", fn=f.label, inst=f.qname)
                     if nonempty:
-                        lk = [e for e in own if ev.index(e) < ip and e.get("val") == "l:oldHead"]
+                        lk = [e for e in own if ev.index(e) < ip and (e.get("valtok") or "").split("@")[0] in head_toks]
                         ok = bool(lk)
                         ctx.ob(rid, ok, f.loc(pubs[0]["st"]), "non-empty list: newNode->next = old head before m_head is switched",
                                "" if ok else "the rest of the list is cut off for readers starting at the new head", fn=f.label, inst=f.qname)
@@ -107,10 +133,10 @@ def publish(ctx, rid="C12.publish", reentrancy=True):
                     else:
                         pass
                 else:
-                    nonempty = any(e["k"] == "branch" and any(a[0] == "eq" and a[1] == "l:oldTail" and a[2] == "nullptr" and a[3] is False
-                                                              for a in e["atoms"]) for e in ev)
+                    tail_toks = {"load:" + e["st"]["id"] for e in ev if e["k"] == "aload" and e["fld"] == (RCU, "m_tail")}
+                    nonempty = _nonnull_on_path(ev, tail_toks) is True
                     if nonempty:
-                        ok = pubs[0]["obj"] == "l:oldTail->next"
+                        ok = pubs[0]["fld"] == (NODE, "next") and (pubs[0].get("objtok") or "").split("@")[0] in tail_toks
                         ctx.ob(rid, ok, f.loc(pubs[0]["st"]), "non-empty list: a back insertion is published through the old tail's next",
                                "" if ok else "published through %s" % pubs[0]["obj"], fn=f.label, inst=f.qname)
                     else:
@@ -119,7 +145,7 @@ def publish(ctx, rid="C12.publish", reentrancy=True):
                 # the writer-side bookkeeping (m_tail) is updated on every path
                 tl = [e for e in ev if e["k"] in ("astore",) and e["fld"] == (RCU, "m_tail")]
                 if not front or not nonempty:
-                    ok = len(tl) == 1 and tl[0].get("val") == "l:newNode"
+                    ok = len(tl) == 1 and tl[0].get("val") == NN
                     ctx.ob(rid, ok, f.where, "m_tail follows the insertion", "" if ok else "m_tail stores: %s" % [t.get("val") for t in tl],
                            fn=f.label, inst=f.qname)
 
